@@ -288,10 +288,35 @@ def g_bilinear(rng, slots, integer):
     return t
 
 
+def g_multilinear(rng, slots, integer):
+    """pure product of 3-4 DISTINCT parameters (optionally scaled, optionally plus an affine part): passes
+    CasADi's allowed-operation test, and its Hessian is non-zero but vanishes at p = 0"""
+    ps = [s for s in slots]
+    rng.shuffle(ps)
+    ps = ps[:rng.choice([3, 3, 4])]
+    t = None
+    if rng.random() < 0.5:
+        while True:
+            t = rconst(rng, integer)
+            if abs(fr(t[1])) not in (1, 2):
+                break
+    for s_ in ps:
+        x = ["p", s_[0], s_[1]]
+        t = x if t is None else ["*", t, x]
+    r = rng.random()
+    if r < 0.3:
+        t = ["+", t, rconst(rng, integer)]
+    elif r < 0.5:
+        t = [rng.choice(["+", "-"]), t, g_safe_aff(rng, slots, integer)]
+    return t
+
+
 def gen_expr(rng, slots, integer, want_affine):
     for _ in range(100):
         if want_affine:
             t = g_aff_p(rng, slots, rng.choice([1, 2, 2, 3]), integer)
+        elif BILINEAR[0] == "multilinear" and len(slots) >= 3:
+            t = g_multilinear(rng, slots, integer)
         elif BILINEAR[0]:
             t = g_bilinear(rng, slots, integer)
         else:
@@ -350,6 +375,34 @@ def vexpand(v):
     return [["+", a, b] for a, b in zip(vexpand(v[1]), vexpand(v[2]))]
 
 
+def rmat(m, integer):
+    k = m[0]
+    if k == "mp":
+        return m[1]
+    if k == "mscale":
+        return "(%s * %s)" % (rnum(m[1], False), rmat(m[2], integer))
+    if k == "mneg":
+        return "(-%s)" % rmat(m[1], integer)
+    if k == "mfill":
+        return "fill(%s, %d, %d)" % (rtree(m[1], integer), m[2], m[3])
+    return "(%s + %s)" % (rmat(m[1], integer), rmat(m[2], integer))
+
+
+def mexpand(m, r, c):
+    """matrix expression -> scalar trees in COLUMN-MAJOR (veccat) order; a matrix parameter element (i,j) is
+    the parameter's veccat entry j*r+i"""
+    k = m[0]
+    if k == "mp":
+        return [["p", m[1], j * r + i] for j in range(c) for i in range(r)]
+    if k == "mscale":
+        return [["*", ["c", m[1]], e] for e in mexpand(m[2], r, c)]
+    if k == "mneg":
+        return [["neg", e] for e in mexpand(m[1], r, c)]
+    if k == "mfill":
+        return [m[1] for _ in range(r * c)]
+    return [["+", a, b] for a, b in zip(mexpand(m[1], r, c), mexpand(m[2], r, c))]
+
+
 def rlit(l):
     if l["t"] == "B":
         return "true" if l["v"] else "false"
@@ -365,6 +418,8 @@ def rdecl(d, integer):
         return rtree(d["e"], integer)
     if d["k"] == "vec":
         return rvec(d["e"], integer)
+    if d["k"] == "mexp":
+        return rmat(d["e"], integer)
     if d["k"] == "mat":
         return "{" + ", ".join("{" + ", ".join(rlit(x) for x in row) + "}" for row in d["rows"]) + "}"
     return "{" + ", ".join(rlit(x) if x["k"] == "lit" else rtree(x["e"], integer) for x in d["es"]) + "}"
@@ -392,6 +447,8 @@ def render(case):
         n = dims[0] if dims else 0
         one = {"Real": "1", "Integer": "1", "Boolean": "true"}[v["type"]]
         rhs = one if not dims else "{" + ", ".join([one] * n) + "}"
+        if len(dims) == 2:
+            continue                      # 2-D variables: no equation (the backend has no 2-D array literals)
         if v["cat"] == "state":
             eqs.append("  der(%s) = %s;" % (v["name"], rhs))
         elif v["cat"] == "alg":
@@ -605,24 +662,53 @@ def decl_elems(d, cnt, dims):
         return [one(d)] * cnt
     if d["k"] == "vec":
         return [("exp", e) for e in vexpand(d["e"])]
+    if d["k"] == "mexp":
+        return [("exp", e) for e in mexpand(d["e"], dims[0], dims[1])]
     if d["k"] == "mat":
         rows = d["rows"]
         return [one(rows[i][j]) for j in range(len(rows[0])) for i in range(len(rows))]
     return [one(x) for x in d["es"]]
 
 
+ELEM_RE = re.compile(r"^(\w+)\[(\d+)(?:,(\d+))?\]$")
+
+
+def elem_of(name, D):
+    """expanded element name 'y[2]' / 'A[1,3]' -> (declared variable, veccat index) or None"""
+    m = ELEM_RE.match(name)
+    if not m or m.group(1) not in D:
+        return None
+    v = D[m.group(1)]
+    dims = v.get("dims") or []
+    if m.group(3) is None:
+        return (v, int(m.group(2)) - 1) if len(dims) == 1 else None
+    if len(dims) != 2:
+        return None
+    i, j = int(m.group(2)) - 1, int(m.group(3)) - 1
+    return (v, j * dims[0] + i)
+
+
 def child_case(case):
+    dims = {p["name"]: p.get("dims") or [] for p in case["params"]}
     pvs = []
     for pv in case["pvs_exact"]:
         d = {}
         for name, vals in pv.items():
             fl = [float(fr(x)) for x in vals]
             d[name] = fl
-            if len(fl) > 1:
+            if len(dims[name]) == 1:
                 for i, x in enumerate(fl):
                     d["%s[%d]" % (name, i + 1)] = [x]
+            elif len(dims[name]) == 2:
+                r, c = dims[name]
+                for j in range(c):
+                    for i in range(r):
+                        d["%s[%d,%d]" % (name, i + 1, j + 1)] = [fl[j * r + i]]
         pvs.append(d)
-    return {"text": case["text"], "via": case["via"], "opts": case["opts"], "pvs": pvs}
+    out = {"text": case["text"], "via": case["via"], "opts": case["opts"], "pvs": pvs}
+    if case.get("steps"):
+        out["steps"] = case["steps"]
+    return out
 
 
 # =====================================================================================
@@ -653,10 +739,8 @@ def locate(case, res):
             nm = o["name"]
             if nm in D:
                 out[(cat, nm)] = (D[nm], None)
-            else:
-                m = re.match(r"^(\w+)\[(\d+)\]$", nm)
-                if m and m.group(1) in D:
-                    out[(cat, nm)] = (D[m.group(1)], int(m.group(2)) - 1)
+            elif elem_of(nm, D):
+                out[(cat, nm)] = elem_of(nm, D)
     return out
 
 
@@ -665,7 +749,7 @@ def envs(case, res):
     (replace_parameter_values) take their declared literal value."""
     live = set()
     for nm, _ in res["params"]:
-        live.add(re.sub(r"\[\d+\]$", "", nm))
+        live.add(re.sub(r"\[\d+(,\d+)?\]$", "", nm))
     out = []
     for pv in case["pvs_exact"]:
         env = {}
@@ -678,7 +762,15 @@ def envs(case, res):
                 vals = [fr(x) for x in pv[p["name"]]]
             else:
                 dv = p["attrs"].get("value")
-                vals = [x[1] for x in decl_elems(dv, cnt, dims)] if dv is not None and dv["k"] in ("lit", "elems", "mat") else None
+                vals = None
+                if dv is not None and dv["k"] in ("lit", "elems", "mat"):
+                    vals = [x[1] for x in decl_elems(dv, cnt, dims)]
+                elif dv is not None and dv["k"] == "exp":
+                    # eliminated dependent parameter (replace_parameter_expressions): follows from its declaration
+                    try:
+                        vals = [ev(dv["e"], env)]
+                    except (Unsafe, KeyError):
+                        vals = None
             if vals is None:
                 continue
             if not dims:
@@ -720,7 +812,18 @@ def known_shape(case):
 
 
 def judge(case, res):
-    """None | (tag, description)"""
+    """None | (tag, description); a sequence case is judged after every simplify step"""
+    if "stages" in res:
+        for i, st in enumerate(res["stages"]):
+            v = judge_one(case, st, later=i > 0)
+            if v:
+                what = "after generate" if i == 0 else "after simplify(%s)" % json.dumps(case["steps"][:i])
+                return (v[0], "%s [accessed %s] %s" % (v[1], what, ""))
+        return None
+    return judge_one(case, res)
+
+
+def judge_one(case, res, later=False):
     if "crash" in res:
         return ("crash", "interpreter crashed (rc=%s)" % res["crash"])
     if "exc" in res:
@@ -740,12 +843,16 @@ def judge(case, res):
                 continue
             v, el = loc[key]
             seen.add(v["name"])
+            # a variable turned into a constant by eliminate_constant_assignments gets its value from the equation
+            moved = cat == "constants" and v["cat"] not in ("constant",)
             if o["ptype"] != PTYPE[v["type"]]:
                 return ("python-type", "%s %s has python_type %s" % (v["type"], o["name"], o["ptype"]))
             n = o["numel"]
             if el is None and n != numel(v):
                 return ("shape", "%s has %d elements, declared %d" % (o["name"], n, numel(v)))
             for a in ATTRS:
+                if moved and a == "value":
+                    continue
                 col = ATTRS.index(a)
                 ob = o["attrs"][a]
                 d = v["attrs"].get(a)
@@ -778,7 +885,7 @@ def judge(case, res):
             if len(res["meta"][pi][ci]) != row:
                 return ("metadata-shape", "metadata matrix of %s has %d rows, variables have %d elements" % (cat, len(res["meta"][pi][ci]), row))
     missing = [v["name"] for v in case["vars"] if v["name"] not in seen]
-    if missing:
+    if missing and not later and not case["opts"].get("replace_constant_values"):
         return ("missing-variable", "declared variables %s are in none of the metadata categories" % missing)
     return None
 
